@@ -35,6 +35,9 @@ struct KeyCase {
     key: RecordKey,
     /// node -> the deliveries it is seeded with (in order)
     seeds: Vec<Vec<Record>>,
+    owner: bls::SecretKey,
+    /// registers: the base register (later waves extend what a node holds)
+    reg_base: Option<SignedRegister>,
 }
 
 /// what a stored value means, per kind
@@ -167,6 +170,7 @@ fn convergence_case(cx: &mut Cx) {
         if holders.is_empty() {
             holders.push(cx.rng.gen_range(0..n));
         }
+        let mut reg_base: Option<SignedRegister> = None;
         let key = match kind {
             Kind::Chunk => {
                 let len = cx.rng.gen_range(1..400);
@@ -206,6 +210,7 @@ fn convergence_case(cx: &mut Cx) {
                 let writer = gen::bls_sk(&mut cx.rng);
                 let base = gen::register(&owner, XorName(cx.rng.gen()), Permissions::new_with([writer.public_key()]));
                 let addr = *base.address();
+                reg_base = Some(base.clone());
                 let pool: Vec<RegisterOp> = (0..6).map(|i| gen::reg_op(addr, vec![i as u8, cx.rng.gen()], BTreeSet::new(), if cx.rng.gen_bool(0.5) { &owner } else { &writer })).collect();
                 // nested / overlapping / disjoint subsets
                 let shape = cx.rng.gen_range(0..3);
@@ -229,7 +234,7 @@ fn convergence_case(cx: &mut Cx) {
                 gen::reg_key(&addr)
             }
         };
-        keys.push(KeyCase { kind, key, seeds });
+        keys.push(KeyCase { kind, key, seeds, owner, reg_base });
     }
 
     // ---- seed while partitioned
@@ -301,212 +306,272 @@ fn convergence_case(cx: &mut Cx) {
 
     // ---- what is held after seeding, and what convergence means
     let snapshot = |sim: &mut Sim, keys: &Vec<KeyCase>| -> Vec<Vec<Held>> { keys.iter().map(|k| (0..n).map(|i| held(k.kind, sim.get_local(i, &k.key))).collect()).collect() };
-    let start = snapshot(&mut sim, &keys);
-    let mut divergent = false;
-    let mut want: Vec<Held> = vec![];
-    for (ki, kc) in keys.iter().enumerate() {
-        let hs: Vec<&Held> = start[ki].iter().filter(|h| **h != Held::None).collect();
-        let distinct: BTreeSet<String> = hs.iter().map(|h| format!("{h:?}")).collect();
-        if distinct.len() >= 2 {
-            divergent = true;
-            cx.count(&format!("divergent-keys:{:?}", kc.kind));
-        }
-        let w = match kc.kind {
-            Kind::Chunk => hs.first().map(|h| (*h).clone()).unwrap_or(Held::None),
-            Kind::Pad => hs.iter().filter_map(|h| if let Held::Pad(c, v) = h { Some((*c, v.clone())) } else { None }).max_by_key(|(c, _)| *c).map(|(c, v)| Held::Pad(c, v)).unwrap_or(Held::None),
-            Kind::Tx => Held::Txs(hs.iter().flat_map(|h| if let Held::Txs(s) = h { s.iter().cloned().collect::<Vec<_>>() } else { vec![] }).collect()),
-            Kind::Reg => Held::Reg(hs.iter().flat_map(|h| if let Held::Reg(s) = h { s.iter().cloned().collect::<Vec<_>>() } else { vec![] }).collect()),
-        };
-        want.push(w);
-    }
-
-    // ---- rounds of the real periodic replication
-    let rounds = 8;
-    let mut converged_at: Option<usize> = None;
-    let mut prev = start.clone();
-    let wjson = |extra: serde_json::Value| json!({"nodes": n, "keys": keys.iter().map(|k| format!("{:?}", k.kind)).collect::<Vec<_>>(), "ranged": ranged, "random_schedule": random_sched, "detail": extra});
-    let satisfied = |sim: &Sim, now: &Vec<Vec<Held>>| -> Vec<(usize, usize)> {
-        let mut missing = vec![];
+    // ---- waves: the first exchange, and (one case in four) one or two later ones after new content has appeared on single
+    //      nodes - whatever the nodes remember from the earlier exchange (fetch queues, throttles, issue books, version
+    //      indexes) must not stand in the way of the later one
+    let waves = if cx.rng.gen_bool(0.25) { cx.rng.gen_range(2..=3) } else { 1 };
+    for wave in 0..waves {
+        let start = snapshot(&mut sim, &keys);
+        let mut divergent = false;
+        let mut want: Vec<Held> = vec![];
         for (ki, kc) in keys.iter().enumerate() {
-            for i in 0..n {
-                if !in_range(sim, i, &kc.key, &ranges[i]) || want[ki] == Held::None {
-                    continue;
-                }
-                let ok = match (&want[ki], &now[ki][i]) {
-                    (Held::Pad(c, _), Held::Pad(c2, _)) => c2 >= c,
-                    (w, h) => w == h,
-                };
-                if !ok {
-                    missing.push((ki, i));
-                }
+            let hs: Vec<&Held> = start[ki].iter().filter(|h| **h != Held::None).collect();
+            let distinct: BTreeSet<String> = hs.iter().map(|h| format!("{h:?}")).collect();
+            if distinct.len() >= 2 {
+                divergent = true;
+                cx.count(&format!("divergent-keys:{:?}", kc.kind));
             }
+            let w = match kc.kind {
+                Kind::Chunk => hs.first().map(|h| (*h).clone()).unwrap_or(Held::None),
+                Kind::Pad => hs.iter().filter_map(|h| if let Held::Pad(c, v) = h { Some((*c, v.clone())) } else { None }).max_by_key(|(c, _)| *c).map(|(c, v)| Held::Pad(c, v)).unwrap_or(Held::None),
+                Kind::Tx => Held::Txs(hs.iter().flat_map(|h| if let Held::Txs(s) = h { s.iter().cloned().collect::<Vec<_>>() } else { vec![] }).collect()),
+                Kind::Reg => Held::Reg(hs.iter().flat_map(|h| if let Held::Reg(s) = h { s.iter().cloned().collect::<Vec<_>>() } else { vec![] }).collect()),
+            };
+            want.push(w);
         }
-        missing
-    };
-    for round in 0..rounds {
-        let mut order: Vec<usize> = (0..n).collect();
-        order.shuffle(&mut cx.rng);
-        let together = cx.rng.gen_bool(0.5);
-        for i in order {
-            sim.nodes[i].drv.verif_reset_replication_throttle();
-            sim.nodes[i].drv.verif_fetcher_age(std::time::Duration::from_secs(25));
-            // (a) the advertisement
-            // what the node holds, typed from the *content it serves* (not from its own index): chunks as
-            // Chunk, mutable kinds by the hash of the stored value (scratchpads: the marker is admitted too)
-            let listed = sim.all_addresses(i);
-            let mut held_now: BTreeSet<(Vec<u8>, String)> = BTreeSet::new();
-            let mut pad_marker_ok: BTreeSet<Vec<u8>> = BTreeSet::new();
-            for (a, _) in listed.iter() {
-                let k = a.to_record_key();
-                match sim.get_local(i, &k) {
-                    Some(rec) => {
-                        let is_chunk = ant_protocol::storage::RecordHeader::is_record_of_type_chunk(&rec).unwrap_or(false);
-                        let t = if is_chunk { RecordType::Chunk } else { RecordType::NonChunk(XorName::from_content(&rec.value)) };
-                        if matches!(ant_protocol::storage::RecordHeader::from_record(&rec).map(|h| h.kind), Ok(ant_protocol::storage::RecordKind::Scratchpad)) {
-                            pad_marker_ok.insert(k.to_vec());
-                        }
-                        held_now.insert((k.to_vec(), format!("{t:?}")));
+
+        // ---- rounds of the real periodic replication
+        let rounds = 8;
+        let mut converged_at: Option<usize> = None;
+        let mut prev = start.clone();
+        let wjson = |extra: serde_json::Value| json!({"nodes": n, "keys": keys.iter().map(|k| format!("{:?}", k.kind)).collect::<Vec<_>>(), "ranged": ranged, "random_schedule": random_sched, "detail": extra});
+        let satisfied = |sim: &Sim, now: &Vec<Vec<Held>>| -> Vec<(usize, usize)> {
+            let mut missing = vec![];
+            for (ki, kc) in keys.iter().enumerate() {
+                for i in 0..n {
+                    if !in_range(sim, i, &kc.key, &ranges[i]) || want[ki] == Held::None {
+                        continue;
                     }
-                    None => {
-                        cx.violation("listed-record-not-readable", format!("node {i} lists a record it cannot serve"), json!({"round": round}));
+                    let ok = match (&want[ki], &now[ki][i]) {
+                        (Held::Pad(c, _), Held::Pad(c2, _)) => c2 >= c,
+                        (w, h) => w == h,
+                    };
+                    if !ok {
+                        missing.push((ki, i));
                     }
                 }
             }
-            let self_addr = NetworkAddress::from_peer(sim.nodes[i].peer);
-            let candidates: BTreeSet<PeerId> = sim.nodes[i].drv.verif_get_replicate_candidates(&self_addr).into_iter().collect();
-            let before = sim.nodes[i].sent_replicates.len();
-            {
-                let _g = sim.rt.enter();
-                sim.nodes[i].network.trigger_interval_replication();
-            }
-            // the trigger itself (one local command) must be handled before anything else changes the store
-            sim.collect();
-            let pos = sim.nodes[i].local_q.iter().position(|c| format!("{c:?}").contains("TriggerIntervalReplication"));
-            if let Some(p) = pos {
-                let cmd = sim.nodes[i].local_q.remove(p).expect("cmd");
-                let _g = sim.rt.enter();
-                let _ = sim.nodes[i].drv.verif_handle_local_cmd(cmd);
-            }
-            sim.collect();
-            // the queued sends are in net_q now; compare them before they are delivered
-            let mut sent_to: BTreeSet<PeerId> = BTreeSet::new();
-            for c in sim.nodes[i].net_q.iter() {
-                if let ant_networking::verif::NetworkSwarmCmd::SendRequest { req: ant_protocol::messages::Request::Cmd(ant_protocol::messages::Cmd::Replicate { holder, keys: adv }), peer, .. } = c {
-                    cx.eval();
-                    cx.count("advertisements-checked");
-                    sent_to.insert(*peer);
-                    let adv_set: BTreeSet<(Vec<u8>, String)> = adv
-                        .iter()
-                        .map(|(a, t)| {
-                            let k = a.to_record_key().to_vec();
-                            if *t == RecordType::Scratchpad && pad_marker_ok.contains(&k) {
-                                // version-less marker: compare as the current version
-                                let cur = held_now.iter().find(|(hk, _)| *hk == k).map(|(_, ht)| ht.clone()).unwrap_or_default();
-                                (k, cur)
-                            } else {
-                                (k, format!("{t:?}"))
+            missing
+        };
+        for round in 0..rounds {
+            let mut order: Vec<usize> = (0..n).collect();
+            order.shuffle(&mut cx.rng);
+            let together = cx.rng.gen_bool(0.5);
+            for i in order {
+                sim.nodes[i].drv.verif_reset_replication_throttle();
+                sim.nodes[i].drv.verif_fetcher_age(std::time::Duration::from_secs(25));
+                // (a) the advertisement
+                // what the node holds, typed from the *content it serves* (not from its own index): chunks as
+                // Chunk, mutable kinds by the hash of the stored value (scratchpads: the marker is admitted too)
+                let listed = sim.all_addresses(i);
+                let mut held_now: BTreeSet<(Vec<u8>, String)> = BTreeSet::new();
+                let mut pad_marker_ok: BTreeSet<Vec<u8>> = BTreeSet::new();
+                for (a, _) in listed.iter() {
+                    let k = a.to_record_key();
+                    match sim.get_local(i, &k) {
+                        Some(rec) => {
+                            let is_chunk = ant_protocol::storage::RecordHeader::is_record_of_type_chunk(&rec).unwrap_or(false);
+                            let t = if is_chunk { RecordType::Chunk } else { RecordType::NonChunk(XorName::from_content(&rec.value)) };
+                            if matches!(ant_protocol::storage::RecordHeader::from_record(&rec).map(|h| h.kind), Ok(ant_protocol::storage::RecordKind::Scratchpad)) {
+                                pad_marker_ok.insert(k.to_vec());
                             }
-                        })
-                        .collect();
-                    if *holder != self_addr {
-                        cx.violation("advertisement-names-another-holder", format!("node {i} advertised as {holder:?}"), wjson(json!({"round": round})));
+                            held_now.insert((k.to_vec(), format!("{t:?}")));
+                        }
+                        None => {
+                            cx.violation("listed-record-not-readable", format!("node {i} lists a record it cannot serve"), json!({"round": round}));
+                        }
                     }
-                    if adv_set != held_now {
-                        let missing = held_now.difference(&adv_set).count();
-                        let surplus = adv_set.difference(&held_now).count();
-                        let stale = held_now.difference(&adv_set).filter(|(k, _)| adv_set.iter().any(|(ak, _)| ak == k)).count();
-                        let sig = if stale > 0 { "record-advertised-with-a-version-it-does-not-hold" } else if missing > 0 { "held-record-not-advertised" } else { "advertised-record-not-held" };
-                        cx.violation(sig, format!("node {i} round {round}: advertisement to {peer} lacks {missing} of {} held (address, version) pairs ({stale} with another version) and lists {surplus} it does not hold", held_now.len()), wjson(json!({"round": round})));
+                }
+                let self_addr = NetworkAddress::from_peer(sim.nodes[i].peer);
+                let candidates: BTreeSet<PeerId> = sim.nodes[i].drv.verif_get_replicate_candidates(&self_addr).into_iter().collect();
+                let before = sim.nodes[i].sent_replicates.len();
+                {
+                    let _g = sim.rt.enter();
+                    sim.nodes[i].network.trigger_interval_replication();
+                }
+                // the trigger itself (one local command) must be handled before anything else changes the store
+                sim.collect();
+                let pos = sim.nodes[i].local_q.iter().position(|c| format!("{c:?}").contains("TriggerIntervalReplication"));
+                if let Some(p) = pos {
+                    let cmd = sim.nodes[i].local_q.remove(p).expect("cmd");
+                    let _g = sim.rt.enter();
+                    let _ = sim.nodes[i].drv.verif_handle_local_cmd(cmd);
+                }
+                sim.collect();
+                // the queued sends are in net_q now; compare them before they are delivered
+                let mut sent_to: BTreeSet<PeerId> = BTreeSet::new();
+                for c in sim.nodes[i].net_q.iter() {
+                    if let ant_networking::verif::NetworkSwarmCmd::SendRequest { req: ant_protocol::messages::Request::Cmd(ant_protocol::messages::Cmd::Replicate { holder, keys: adv }), peer, .. } = c {
+                        cx.eval();
+                        cx.count("advertisements-checked");
+                        sent_to.insert(*peer);
+                        let adv_set: BTreeSet<(Vec<u8>, String)> = adv
+                            .iter()
+                            .map(|(a, t)| {
+                                let k = a.to_record_key().to_vec();
+                                if *t == RecordType::Scratchpad && pad_marker_ok.contains(&k) {
+                                    // version-less marker: compare as the current version
+                                    let cur = held_now.iter().find(|(hk, _)| *hk == k).map(|(_, ht)| ht.clone()).unwrap_or_default();
+                                    (k, cur)
+                                } else {
+                                    (k, format!("{t:?}"))
+                                }
+                            })
+                            .collect();
+                        if *holder != self_addr {
+                            cx.violation("advertisement-names-another-holder", format!("node {i} advertised as {holder:?}"), wjson(json!({"round": round})));
+                        }
+                        if adv_set != held_now {
+                            let missing = held_now.difference(&adv_set).count();
+                            let surplus = adv_set.difference(&held_now).count();
+                            let stale = held_now.difference(&adv_set).filter(|(k, _)| adv_set.iter().any(|(ak, _)| ak == k)).count();
+                            let sig = if stale > 0 { "record-advertised-with-a-version-it-does-not-hold" } else if missing > 0 { "held-record-not-advertised" } else { "advertised-record-not-held" };
+                            cx.violation(sig, format!("node {i} round {round}: advertisement to {peer} lacks {missing} of {} held (address, version) pairs ({stale} with another version) and lists {surplus} it does not hold", held_now.len()), wjson(json!({"round": round})));
+                        }
+                    }
+                }
+                let _ = before;
+                if !held_now.is_empty() && sent_to != candidates {
+                    cx.violation("advertisement-not-sent-to-every-replication-target", format!("node {i} round {round}: sent to {} peers, replicate candidates are {}", sent_to.len(), candidates.len()), wjson(json!({"round": round})));
+                }
+                if !together {
+                    let mut d = || true;
+                    if !sim.settle(&mut d) {
+                        cx.inconclusive("replication round did not settle");
+                        let _ = std::fs::remove_dir_all(&root);
+                        return;
                     }
                 }
             }
-            let _ = before;
-            if !held_now.is_empty() && sent_to != candidates {
-                cx.violation("advertisement-not-sent-to-every-replication-target", format!("node {i} round {round}: sent to {} peers, replicate candidates are {}", sent_to.len(), candidates.len()), wjson(json!({"round": round})));
-            }
-            if !together {
-                let mut d = || true;
-                if !sim.settle(&mut d) {
+            let mut d = || true;
+            if !sim.settle(&mut d) {
+                if sim.settle_ran_out_of_steps {
+                    // a logical bound, not a clock: 400000 scheduler steps without quiescence for <= 3 nodes and <= 10 keys
+                    cx.violation("replication-exchange-never-quiesces", format!("round {round}: the nodes were still fetching from each other after 400000 scheduler steps (a round normally needs a few thousand)"), wjson(json!({"round": round})));
+                } else {
                     cx.inconclusive("replication round did not settle");
-                    let _ = std::fs::remove_dir_all(&root);
-                    return;
                 }
+                let _ = std::fs::remove_dir_all(&root);
+                return;
+            }
+            // monotonicity + progress
+            let now = snapshot(&mut sim, &keys);
+            for (ki, kc) in keys.iter().enumerate() {
+                if kc.kind == Kind::Tx {
+                    for i in 0..n {
+                        let rec = sim.get_local(i, &kc.key);
+                        if tx_duplicates(&rec) {
+                            cx.violation("stored-transaction-set-lists-a-transaction-twice", format!("round {round}: node {i} stores key {ki} as a list in which one transaction occurs more than once (the record grows with every exchange and never equals its neighbour's)"), wjson(json!({"round": round})));
+                        }
+                    }
+                }
+            }
+            for (ki, kc) in keys.iter().enumerate() {
+                for i in 0..n {
+                    cx.eval();
+                    let regress = match (&prev[ki][i], &now[ki][i]) {
+                        (Held::None, _) => false,
+                        (_, Held::None) => true,
+                        (Held::Pad(c0, _), Held::Pad(c1, _)) => c1 < c0,
+                        (Held::Txs(a), Held::Txs(b)) => !a.is_subset(b),
+                        (Held::Reg(a), Held::Reg(b)) => !a.is_subset(b),
+                        (Held::Chunk(a), Held::Chunk(b)) => a != b,
+                        (_, Held::Unreadable) => true,
+                        _ => false,
+                    };
+                    if regress {
+                        cx.violation(format!("replication-lost-content:{:?}", kc.kind), format!("node {i} key {ki} went from {:?} to {:?} in round {round}", short(&prev[ki][i]), short(&now[ki][i])), wjson(json!({"round": round})));
+                    }
+                }
+            }
+            if converged_at.is_none() && satisfied(&sim, &now).is_empty() {
+                converged_at = Some(round + 1);
+            }
+            prev = now;
+        }
+        cx.nontrivial(&(&plan_sig, sim.schedule_hash(), ranged, wave));
+        if divergent {
+            cx.count("cases-with-divergent-versions");
+        }
+        let missing = satisfied(&sim, &prev);
+        match converged_at {
+            Some(r) if missing.is_empty() => {
+                cx.count(&format!("converged-after-rounds:{r}"));
+                cx.sample(json!({"nodes": n, "keys": keys.len(), "converged_after_rounds": r, "ranged": ranged, "steps": sim.steps}));
+            }
+            _ => {}
+        }
+        let mut reported: BTreeSet<String> = BTreeSet::new();
+        for (ki, i) in missing {
+            let kc = &keys[ki];
+            let sig = match (&kc.kind, &prev[ki][i]) {
+                (Kind::Chunk, Held::None) => "chunk-not-replicated-to-in-range-neighbour".to_string(),
+                (Kind::Chunk, _) => "chunk-copy-differs".to_string(),
+                (k, Held::None) => format!("{k:?}-not-replicated-to-in-range-neighbour"),
+                (k, _) => format!("{k:?}-versions-not-converged"),
+            };
+            if reported.insert(sig.clone()) {
+                cx.violation(sig, format!("after {rounds} rounds node {i} holds {} for key {ki}, the merged state is {}", short(&prev[ki][i]), short(&want[ki])), wjson(json!({"key": ki, "node": i})));
             }
         }
+        for (ki, kc) in keys.iter().enumerate() {
+            if kc.kind == Kind::Chunk && (0..n).any(|i| start[ki][i] == Held::None && prev[ki][i] != Held::None) {
+                cx.count("chunks-replicated");
+            }
+        }
+        if wave + 1 >= waves {
+            break;
+        }
+        cx.count("later-waves");
+        // ---- new content appears on single nodes (placed directly, as a node does once it has accepted a record)
+        let mut changed = 0;
+        for ki in 0..keys.len() {
+            if !cx.rng.gen_bool(0.6) {
+                continue;
+            }
+            let node_i = cx.rng.gen_range(0..n);
+            let rec: Option<Record> = match (keys[ki].kind, &prev[ki][node_i]) {
+                (Kind::Pad, _) => {
+                    let top = (0..n).filter_map(|i| if let Held::Pad(c, _) = &prev[ki][i] { Some(*c) } else { None }).max().unwrap_or(0);
+                    Some(gen::pad_record(&gen::pad(&keys[ki].owner, top + cx.rng.gen_range(1..4), &gen::bytes_r(&mut cx.rng, 1, 50), 0)))
+                }
+                (Kind::Tx, Held::Txs(have)) => {
+                    let mut v: Vec<Transaction> = have.iter().cloned().collect();
+                    v.push(gen::transaction(&mut cx.rng, &keys[ki].owner));
+                    Some(gen::txs_record(keys[ki].key.clone(), &v))
+                }
+                (Kind::Reg, Held::Reg(have)) => keys[ki].reg_base.clone().map(|mut r| {
+                    for op in have.iter() {
+                        let _ = r.add_op(op.clone());
+                    }
+                    let addr = *r.address();
+                    let _ = r.add_op(gen::reg_op(addr, vec![200 + wave as u8, cx.rng.gen(), cx.rng.gen()], BTreeSet::new(), &keys[ki].owner));
+                    gen::reg_record(&r)
+                }),
+                _ => None,
+            };
+            if let Some(rec) = rec {
+                let _g = sim.rt.enter();
+                let _ = sim.nodes[node_i].drv.verif_handle_local_cmd(ant_networking::verif::LocalSwarmCmd::PutLocalRecord { record: rec });
+                changed += 1;
+            }
+        }
+        // and a brand-new chunk on one node
+        {
+            let c = gen::chunk(&mut cx.rng, 120);
+            let r = gen::chunk_record(&c);
+            let node_i = cx.rng.gen_range(0..n);
+            let _g = sim.rt.enter();
+            let _ = sim.nodes[node_i].drv.verif_handle_local_cmd(ant_networking::verif::LocalSwarmCmd::PutLocalRecord { record: r.clone() });
+            keys.push(KeyCase { kind: Kind::Chunk, key: r.key, seeds: vec![vec![]; n], owner: gen::bls_sk(&mut cx.rng), reg_base: None });
+            changed += 1;
+        }
+        cx.count_n("later-waves:records-changed-on-single-nodes", changed);
         let mut d = || true;
         if !sim.settle(&mut d) {
-            if sim.settle_ran_out_of_steps {
-                // a logical bound, not a clock: 400000 scheduler steps without quiescence for <= 3 nodes and <= 10 keys
-                cx.violation("replication-exchange-never-quiesces", format!("round {round}: the nodes were still fetching from each other after 400000 scheduler steps (a round normally needs a few thousand)"), wjson(json!({"round": round})));
-            } else {
-                cx.inconclusive("replication round did not settle");
-            }
+            cx.inconclusive("seeding of a later wave did not settle");
             let _ = std::fs::remove_dir_all(&root);
             return;
-        }
-        // monotonicity + progress
-        let now = snapshot(&mut sim, &keys);
-        for (ki, kc) in keys.iter().enumerate() {
-            if kc.kind == Kind::Tx {
-                for i in 0..n {
-                    let rec = sim.get_local(i, &kc.key);
-                    if tx_duplicates(&rec) {
-                        cx.violation("stored-transaction-set-lists-a-transaction-twice", format!("round {round}: node {i} stores key {ki} as a list in which one transaction occurs more than once (the record grows with every exchange and never equals its neighbour's)"), wjson(json!({"round": round})));
-                    }
-                }
-            }
-        }
-        for (ki, kc) in keys.iter().enumerate() {
-            for i in 0..n {
-                cx.eval();
-                let regress = match (&prev[ki][i], &now[ki][i]) {
-                    (Held::None, _) => false,
-                    (_, Held::None) => true,
-                    (Held::Pad(c0, _), Held::Pad(c1, _)) => c1 < c0,
-                    (Held::Txs(a), Held::Txs(b)) => !a.is_subset(b),
-                    (Held::Reg(a), Held::Reg(b)) => !a.is_subset(b),
-                    (Held::Chunk(a), Held::Chunk(b)) => a != b,
-                    (_, Held::Unreadable) => true,
-                    _ => false,
-                };
-                if regress {
-                    cx.violation(format!("replication-lost-content:{:?}", kc.kind), format!("node {i} key {ki} went from {:?} to {:?} in round {round}", short(&prev[ki][i]), short(&now[ki][i])), wjson(json!({"round": round})));
-                }
-            }
-        }
-        if converged_at.is_none() && satisfied(&sim, &now).is_empty() {
-            converged_at = Some(round + 1);
-        }
-        prev = now;
-    }
-    cx.nontrivial(&(plan_sig, sim.schedule_hash(), ranged));
-    if divergent {
-        cx.count("cases-with-divergent-versions");
-    }
-    let missing = satisfied(&sim, &prev);
-    match converged_at {
-        Some(r) if missing.is_empty() => {
-            cx.count(&format!("converged-after-rounds:{r}"));
-            cx.sample(json!({"nodes": n, "keys": keys.len(), "converged_after_rounds": r, "ranged": ranged, "steps": sim.steps}));
-        }
-        _ => {}
-    }
-    let mut reported: BTreeSet<String> = BTreeSet::new();
-    for (ki, i) in missing {
-        let kc = &keys[ki];
-        let sig = match (&kc.kind, &prev[ki][i]) {
-            (Kind::Chunk, Held::None) => "chunk-not-replicated-to-in-range-neighbour".to_string(),
-            (Kind::Chunk, _) => "chunk-copy-differs".to_string(),
-            (k, Held::None) => format!("{k:?}-not-replicated-to-in-range-neighbour"),
-            (k, _) => format!("{k:?}-versions-not-converged"),
-        };
-        if reported.insert(sig.clone()) {
-            cx.violation(sig, format!("after {rounds} rounds node {i} holds {} for key {ki}, the merged state is {}", short(&prev[ki][i]), short(&want[ki])), wjson(json!({"key": ki, "node": i})));
-        }
-    }
-    for (ki, kc) in keys.iter().enumerate() {
-        if kc.kind == Kind::Chunk && (0..n).any(|i| start[ki][i] == Held::None && prev[ki][i] != Held::None) {
-            cx.count("chunks-replicated");
         }
     }
     drop(sim);
